@@ -1,4 +1,6 @@
 import IncanModel.Tool.FmtCli
+import IncanModel.Tool.Writer
+import IncanModel.Driver.Util
 namespace Incan.Driver
 open Incan.FmtCli
 
@@ -25,6 +27,24 @@ def handleC09 : List String → String
     let showOne := fun (p : String × Outcome) =>
       if p.2.contents == p.1 then "unchanged" else if p.2.contents == "T" then "rewritten-formatted" else "rewritten-other"
     s!"{if ok then "exit0" else "exit1"} {",".intercalate ((files.zip outs).map showOne)}"
+  | ["writer", width, ops] =>
+    -- ops: `w<chars>` / `n` / `i` / `d` / `e` / `b<k>` separated by `;`
+    let parseOp : String → Option Incan.Writer.Op := fun t =>
+      match t.toList with
+      | ['n'] => some .newline
+      | ['i'] => some .indent
+      | ['d'] => some .dedent
+      | ['e'] => some .endLine
+      | 'b' :: k => (String.ofList k).toNat?.map .blankLines
+      | 'w' :: cs => (parseStr (String.ofList cs)).map .write
+      | _ => none
+    let parsed := (ops.splitOn ";").foldr (fun t acc => match acc, parseOp t with
+      | some l, some o => some (o :: l) | _, _ => none) (some [])
+    (match width.toNat?, parsed with
+    | some w, some os =>
+      let r := Incan.Writer.run { width := w } os
+      s!"{if Incan.Writer.clientOk false os then "1" else "0"} {showStr r.out}"
+    | _, _ => "bad-op")
   | _ => "bad-op"
 
 end Incan.Driver
